@@ -18,10 +18,10 @@ func init() {
 		Explanation: "End-to-end equivalence with `go run` over all programs is behavioural and not decided. Three wiring clauses are: TAB-EXHAUST — every opcode the compiler or optimiser can emit has a handler in exec (unhandled = run-time 'unknown code' for every script reaching it), every placeholder opcode has a rewrite site, with one derived exemption (an opcode emitted only inside the FUNC header, which exec skips); TAB-BASICNAMES — the five places enumerating basic type names (getType, convMap, the conversion-call list, the alias list, the nudSelf rows) agree and convMap maps int/int32/rune->Int32, byte/uint8->Uint8, int8->Int8, uint/uint32->Uint32, float64, bool, string to the matching tag; TAB-SHIM — every bundled stdlib shim that delegates to the Go package named in its registration key calls exactly the function of that name, passes the script's arguments once each in parameter order, and registers the callee's parameter and result counts. Operator, control-flow, scoping and call clauses are decided under C04-C09.",
 		Assumptions: []string{"hand-written shims (fmt.Sprint*, slices.*, maps.*, os.* indirections) are listed as manual and not judged"},
 		Quick: []ruleDef{
-			{"TAB-EXHAUST", 64, ruleTabExhaust},
-			{"TAB-BASICNAMES", 74, ruleTabBasicNames},
-			{"TAB-SHIM", 143, ruleTabShim},
-			{"LAY-ONCE", 52, ruleLayOnce},
+			{"TAB-EXHAUST", 60, ruleTabExhaust},
+			{"TAB-BASICNAMES", 46, ruleTabBasicNames},
+			{"TAB-SHIM", 89, ruleTabShim},
+			{"LAY-ONCE", 32, ruleLayOnce},
 			{"TAB-KEYWORDS", 25, ruleTabKeywords},
 			{"TAB-IOTA", 3, ruleTabIota},
 		},
@@ -674,16 +674,60 @@ func ruleTabIota(c *Ctx, r *R) {
 	n := 0
 	var bad []string
 	var counters []types.Object
+	// the substitution may sit in a helper that is handed the text: then the text is what the
+	// call sites in constNud pass for that parameter
+	type subst struct {
+		call *ast.CallExpr
+		arg  ast.Expr
+	}
+	var substs []subst
+	collect := func(body ast.Node, bind map[types.Object]ast.Expr) {
+		ast.Inspect(body, func(m ast.Node) bool {
+			call, ok := m.(*ast.CallExpr)
+			if !ok || c.CalleeName(call) != "token.Replace" || len(call.Args) != 3 {
+				return true
+			}
+			if v, ok := c.ConstString(call.Args[0]); !ok || v != "iota" {
+				return true
+			}
+			arg := unparen(call.Args[2])
+			if id, ok := arg.(*ast.Ident); ok && bind != nil {
+				if b, ok := bind[c.Obj(id)]; ok {
+					arg = unparen(b)
+				}
+			}
+			substs = append(substs, subst{call, arg})
+			return true
+		})
+	}
+	collect(fd.Body, nil)
 	ast.Inspect(fd.Body, func(m ast.Node) bool {
 		call, ok := m.(*ast.CallExpr)
-		if !ok || c.CalleeName(call) != "token.Replace" || len(call.Args) != 3 {
+		if !ok {
 			return true
 		}
-		if v, ok := c.ConstString(call.Args[0]); !ok || v != "iota" {
+		o := c.Callee(call)
+		h := c.DeclOf(o)
+		if o == nil || h == nil || h == fd || h.Body == nil || !c.isNewHelper(o) {
 			return true
 		}
+		bind := map[types.Object]ast.Expr{}
+		i := 0
+		for _, f := range h.Type.Params.List {
+			for _, nm := range f.Names {
+				if i < len(call.Args) {
+					bind[c.Info.Defs[nm]] = call.Args[i]
+				}
+				i++
+			}
+		}
+		collect(h.Body, bind)
+		return true
+	})
+	for _, sb := range substs {
+		call := sb.call
 		n++
-		arg := unparen(call.Args[2])
+		arg := sb.arg
 		// follow one definition: n := fmt.Sprint(spec)
 		if id, ok := arg.(*ast.Ident); ok {
 			if def := c.singleDefIn(fd, c.Obj(id)); def != nil {
@@ -692,8 +736,8 @@ func ruleTabIota(c *Ctx, r *R) {
 		}
 		src := nosp(c.Src(arg))
 		if strings.Contains(src, "len(") {
-			bad = append(bad, c.Pos(call)+": "+c.Src(call.Args[2]))
-			return true
+			bad = append(bad, c.Pos(call)+": "+c.Src(arg))
+			continue
 		}
 		ast.Inspect(arg, func(k ast.Node) bool {
 			if id, ok := k.(*ast.Ident); ok {
@@ -705,8 +749,7 @@ func ruleTabIota(c *Ctx, r *R) {
 			}
 			return true
 		})
-		return true
-	})
+	}
 	if n == 0 {
 		r.undecided("iota", c.Pos(fd), "no Replace(\"iota\", ..) in constNud")
 		return
